@@ -235,6 +235,25 @@ pub fn single_step(e: &mut Emu) -> Result<(), String> {
     }
 }
 
+/// Execute the straight-line instruction of `len` bytes at the current PC, however many
+/// `emulate()` calls the implementation needs for it (prefix bytes may be separate calls).
+pub fn step_over(e: &mut Emu, len: u16) -> Result<(), String> {
+    let start = e.verif_cpu().regs.get_pc();
+    let target = start.wrapping_add(len);
+    for _ in 0..4 {
+        single_step(e)?;
+        if e.verif_cpu().regs.get_pc() == target {
+            return Ok(());
+        }
+    }
+    Err(format!(
+        "instruction of {} bytes at {:#06x} did not complete in 4 emulate() calls (PC = {:#06x})",
+        len,
+        start,
+        e.verif_cpu().regs.get_pc()
+    ))
+}
+
 /// Run until PC reaches one of `addrs` (checked after every instruction) or `max_frames`
 /// frames have passed. Returns Some(pc) on breakpoint.
 pub fn run_to(e: &mut Emu, addrs: &[u16], max_frames: usize) -> Result<Option<u16>, String> {
